@@ -25,7 +25,7 @@
 (***************************************************************************)
 EXTENDS TSGExec, TSGStatic, Json, IOUtils
 
-CONSTANTS MaxLen1, MaxLen2, MaxIsoNodes
+CONSTANTS MaxLen1, MaxLen2, MaxIsoNodes, ClosedOnly, PoolN    \* PoolN: how many pool entries are used (12: core pool, 26: wide pool)
 
 Template == JsonDeserialize(IOEnv.TEMPLATE)     \* a prepared case with two stanzas (queries fixed, bodies ignored)
 Trees == JsonDeserialize(IOEnv.TREES)
@@ -55,16 +55,43 @@ Pool == <<
   [k |-> "if", arms |-> <<[conds |-> <<[k |-> "bool", value |-> CallE("eq", <<CallE("source-text", <<Cap>>), Str("x")>>), loc |-> L0]>>,
                            stmts |-> <<[k |-> "attrn", node |-> CallE("node", <<>>), attrs |-> <<Attr("x", [k |-> "true"])>>, loc |-> L0]>>, loc |-> L0]>>, loc |-> L0],
   [k |-> "for", var |-> [name |-> "y", loc |-> L0], value |-> [k |-> "list", elems |-> <<I(1), I(2)>>],
-   stmts |-> <<[k |-> "edge", src |-> CallE("node", <<>>), dst |-> CallE("node", <<>>), loc |-> L0]>>, loc |-> L0]
+   stmts |-> <<[k |-> "edge", src |-> CallE("node", <<>>), dst |-> CallE("node", <<>>), loc |-> L0]>>, loc |-> L0],
+  \* ---- wide pool (13..26): pairs of features that random programs rarely combine
+  [k |-> "let", var |-> SV("c"), value |-> CallE("node", <<>>), loc |-> L0],                                               \* 13 scoped variable holding a call without arguments
+  [k |-> "let", var |-> SV("s"), value |-> [k |-> "set", elems |-> <<I(1), I(2)>>], loc |-> L0],                          \* 14 ... holding a set
+  [k |-> "attrn", node |-> V("n"), attrs |-> <<Attr("r", CallE("eq", <<[k |-> "set", elems |-> <<I(2), I(1)>>], SV("s")>>))>>, loc |-> L0],   \* 15 read as a later call parameter
+  [k |-> "attrn", node |-> V("n"), attrs |-> <<Attr("q", CallE("and", <<[k |-> "true"], CallE("not", <<CallE("is-null", <<SV("c")>>)>>)>>))>>, loc |-> L0],  \* 16
+  [k |-> "attrn", node |-> SV("a"), attrs |-> <<Attr("plain", SV("s"))>>, loc |-> L0],                                     \* 17 read on its own
+  [k |-> "edge", src |-> SV("a"), dst |-> SV("c"), loc |-> L0],                                                            \* 18
+  [k |-> "let", var |-> V("spare"), value |-> CallE("node", <<>>), loc |-> L0],                                            \* 19 unused variable allocating a node
+  [k |-> "let", var |-> V("bad"), value |-> CallE("plus", <<I(1), Str("x")>>), loc |-> L0],                                \* 20 unused failing variable
+  [k |-> "var", var |-> V("m"), value |-> I(1), loc |-> L0],                                                               \* 21
+  [k |-> "set", var |-> V("m"), value |-> CallE("plus", <<V("m"), I(1)>>), loc |-> L0],                                    \* 22 (needs 21)
+  [k |-> "attrn", node |-> SV("a"), attrs |-> <<Attr("lc", [k |-> "listc", elem |-> CallE("plus", <<V("y"), I(1)>>), var |-> [name |-> "y", loc |-> L0],
+                                                             value |-> [k |-> "list", elems |-> <<I(1), I(2)>>], loc |-> L0])>>, loc |-> L0],   \* 23 comprehension
+  [k |-> "scan", value |-> CallE("source-text", <<Cap>>), loc |-> L0,
+   arms |-> <<[re |-> "^[a-f]", stmts |-> <<[k |-> "attrn", node |-> CallE("node", <<>>), attrs |-> <<Attr("m0", [k |-> "rcap", i |-> 0])>>, loc |-> L0]>>, loc |-> L0],
+              [re |-> "(x)|(y)", stmts |-> <<[k |-> "attrn", node |-> CallE("node", <<>>), attrs |-> <<Attr("g1", [k |-> "rcap", i |-> 1]), Attr("g2", [k |-> "rcap", i |-> 2])>>, loc |-> L0]>>, loc |-> L0]>>],  \* 24
+  [k |-> "attrn", node |-> SV("a"), attrs |-> <<Attr("sh", I(2))>>, loc |-> L0],                                           \* 25 attribute shorthand of the template
+  [k |-> "print", values |-> <<Str("p"), SV("a"), CallE("source-text", <<Cap>>)>>, loc |-> L0]                              \* 26
 >>
 
 \* bodies: sequences of pool indices; a body is closed (uses `n` only after `node n`) - ill-formed ones are skipped
 RECURSIVE SeqsUpTo(_, _)
 SeqsUpTo(S, n) == IF n = 0 THEN {<<>>} ELSE LET T == SeqsUpTo(S, n - 1) IN T \cup {Append(t, x) : t \in {u \in T : Len(u) = n - 1}, x \in S}
-UsesN(i) == i \in {3, 4, 5, 8}
-WellFormed(b) == \A j \in 1..Len(b) : UsesN(b[j]) => \E m \in 1..(j - 1) : b[m] = 1
-NoRedef(b) == Cardinality({j \in 1..Len(b) : b[j] = 1}) <= 1
-Bodies(n) == {b \in SeqsUpTo(1..Len(Pool), n) : WellFormed(b) /\ NoRedef(b)}
+UsesN(i) == i \in {3, 4, 5, 8, 15, 16}
+Defines(i) == i \in {1, 19, 20, 21}      \* entries that define a local name: at most once per body
+NeedsBefore(b, j, i) == \E m \in 1..(j - 1) : b[m] = i
+WellFormed(b) == \A j \in 1..Len(b) : (UsesN(b[j]) => NeedsBefore(b, j, 1)) /\ (b[j] = 22 => NeedsBefore(b, j, 21))
+NoRedef(b) == \A i \in {x \in 1..PoolN : Defines(x)} : Cardinality({j \in 1..Len(b) : b[j] = i}) <= 1
+Bodies(n) == {b \in SeqsUpTo(1..PoolN, n) : WellFormed(b) /\ NoRedef(b)}
+
+\* scoped names read / defined by the pool entries; a program is closed when every name it reads is defined by one of its statements
+ReadsOf(i) == CASE i \in {4, 6, 7, 8, 9, 25, 26} -> {"a"} [] i = 10 -> {"b"} [] i = 16 -> {"c"} [] i = 15 -> {"s"} [] i = 17 -> {"a", "s"} [] i = 18 -> {"a", "c"}
+                [] i = 23 -> {"a"} [] OTHER -> {}
+DefsOf(i) == CASE i = 2 -> {"a"} [] i = 9 -> {"b"} [] i = 13 -> {"c"} [] i = 14 -> {"s"} [] OTHER -> {}
+Closed(x, y) == (UNION {ReadsOf(x[j]) : j \in 1..Len(x)} \cup UNION {ReadsOf(y[j]) : j \in 1..Len(y)})
+                  \subseteq (UNION {DefsOf(x[j]) : j \in 1..Len(x)} \cup UNION {DefsOf(y[j]) : j \in 1..Len(y)})
 
 \* every capture of the template must be used (checker): a harmless `let` is appended
 UseCap == [k |-> "let", var |-> V("u"), value |-> Cap, loc |-> L0]
@@ -75,7 +102,7 @@ ProgOf(b1, b2) ==
                                       [Template.prog.stanzas[2] EXCEPT !.stmts = BodyStmts(b2)]>>]
 CaseOf(b1, b2, mode, swapped) ==
   LET p == ProgOf(b1, b2) IN
-  [Template EXCEPT !.mode = mode, !.svnames = <<"a", "b">>,
+  [Template EXCEPT !.mode = mode, !.svnames = <<"a", "b", "c", "s">>,
                    !.prog = IF swapped THEN [p EXCEPT !.stanzas = <<p.stanzas[2], p.stanzas[1]>>] ELSE p,
                    !.matches = IF swapped THEN <<Template.matches[2], Template.matches[1]>> ELSE Template.matches,
                    !.lorder = IF swapped THEN [i \in 1..Len(Template.lorder) |-> <<3 - Template.lorder[i][1], Template.lorder[i][2]>>]
@@ -91,7 +118,7 @@ vars == <<b1, b2, phase, fs, fl, flw, fsd, fld>>
 None == [status |-> "none"]
 DbgNames == {"dbg_loc", "dbg_var", "dbg_mat"}
 WithDbg(c) == [c EXCEPT !.dbg = [on |-> TRUE, loc |-> "dbg_loc", var |-> "dbg_var", mat |-> "dbg_mat"]]
-Init == b1 \in Bodies(MaxLen1) /\ b2 \in Bodies(MaxLen2) /\ phase = "strict" /\ fs = None /\ fl = None /\ flw = None /\ fsd = None /\ fld = None
+Init == b1 \in Bodies(MaxLen1) /\ b2 \in Bodies(MaxLen2) /\ (ClosedOnly => Closed(b1, b2)) /\ phase = "strict" /\ fs = None /\ fl = None /\ flw = None /\ fsd = None /\ fld = None
 RunStrict == phase = "strict" /\ fs' = Final(CaseOf(b1, b2, "strict", FALSE)) /\ phase' = "lazy" /\ UNCHANGED <<b1, b2, fl, flw, fsd, fld>>
 RunLazy == phase = "lazy" /\ fl' = Final(CaseOf(b1, b2, "lazy", FALSE)) /\ phase' = "swapped" /\ UNCHANGED <<b1, b2, fs, flw, fsd, fld>>
 RunSwapped == phase = "swapped" /\ flw' = Final(CaseOf(b1, b2, "lazy", TRUE)) /\ phase' = "dbg" /\ UNCHANGED <<b1, b2, fs, fl, fsd, fld>>
